@@ -1565,6 +1565,9 @@ def gen_sink(r: random.Random, fault_rate=0.0, nwrites=300):
             d["fault"] = {"kind": "eio", "at": at, "sticky": False}
         else:
             d["fault"] = {"kind": "crash", "at": at, "torn": r.choice([0, 1, 17, 10 ** 6])}
+        if r.random() < 0.5:
+            # half of the faults are placed as a fraction of the previous complete save of the same deck (resolved at run time)
+            d["fault"]["at_frac"] = r.choice([0.02, 0.3, 0.6, 0.9, 0.97, 0.995, 1.0])
     elif r.random() < fault_rate / 4:
         d = {"sink": "devfull"}
     return d
